@@ -767,6 +767,36 @@ func (c *EvalCtx) call(v *ECall) SV {
 		return SV{t: app(SReal, "xf-val", argT(0))}
 	case "pl":
 		return SV{t: ifacePl(argT(0))}
+	case "visited":
+		// visited(k): k was already produced by the (single) map range loop of this function
+		var names []string
+		for g := range c.st.ghost {
+			if strings.HasPrefix(g, "visited.") {
+				names = append(names, g)
+			}
+		}
+		if len(names) != 1 {
+			sfail("visited(k): need exactly one active map range, found %d", len(names))
+		}
+		return SV{t: sel(c.st.ghost[names[0]], argT(0)), typ: boolT}
+	case "apply":
+		// apply(f, args...): the result of the pure callback f (see flag purecallbacks)
+		f := arg(0)
+		sig, ok := f.typ.Underlying().(*types.Signature)
+		if !ok {
+			sfail("apply: first argument is not a function")
+		}
+		var vals []Val
+		for i := 1; i < len(v.Args); i++ {
+			a := arg(i)
+			pt := sig.Params().At(i - 1).Type()
+			vals = append(vals, Val{T: c.value(a), typ: pt})
+		}
+		r := c.x.pureCallback(c.st, c.value(f), sig, vals)
+		if r.tuple != nil {
+			sfail("apply: multi-result callbacks are not supported")
+		}
+		return SV{t: r.T, typ: r.typ}
 	case "allocmax":
 		return goInt(c.x.ghostInt(c.st, "alloc.max"))
 	case "arr":
